@@ -1,6 +1,7 @@
 package props
 
 import (
+	"encoding/json"
 	"fmt"
 	"math"
 	"sort"
@@ -219,4 +220,49 @@ func optimizeAllAnswers(protein string, t codon.Table) (results map[string]int, 
 		return true
 	})
 	return
+}
+
+
+// codonMenu: calls on the codon package for the history-independence units. Tables that are re-weighted are
+// private deep copies, so the recorded GetCodonTable storage leak is not exercised here.
+func codonMenu() []hcall {
+	tv := func(t codon.Table) string {
+		v := viewOf(t)
+		return v.weights() + v.letters() + fmt.Sprint(t.StartCodons, t.StopCodons)
+	}
+	tr := func(dna string, id int) hcall {
+		return hcall{fmt.Sprintf("Translate(%s,table %d)", dna, id), func() any {
+			v, err := codon.Translate(dna, codon.GetCodonTable(id))
+			return fmt.Sprint(v, err)
+		}, showSprint}
+	}
+	mk := func(id int, s string) codon.Table { return deepCopyTable(codon.GetCodonTable(id)).OptimizeTable(s) }
+	all := strings.Join(allCodons, "")
+	return []hcall{
+		tr("ATGAAATAG", 1), tr("TTGAAATAA", 11), tr("atgaga", 2),
+		{"GetCodonTable(27) lists", func() any { t := codon.GetCodonTable(27); return fmt.Sprint(t.StartCodons, t.StopCodons) }, showSprint},
+		{"OptimizeTable(copy of 11, ATGgccATG)", func() any { return mk(11, "ATGgccATG") }, func(v any) string { return tv(v.(codon.Table)) }},
+		{"AddCodonTable(copies)", func() any { return codon.AddCodonTable(mk(1, all+"ATGATG"), mk(1, all+"TTTTTT")) }, func(v any) string { return tv(v.(codon.Table)) }},
+		{"CompromiseCodonTable(copies,0.1)", func() any {
+			t, err := codon.CompromiseCodonTable(mk(11, all+"ATGATGGGG"), mk(1, all+"CCCTTT"), 0.1)
+			if err != nil {
+				return codon.Table{}
+			}
+			return t
+		}, func(v any) string { return tv(v.(codon.Table)) }},
+		{"ParseCodonJSON(table 4 as JSON)", func() any {
+			b, _ := json.Marshal(deepCopyTable(codon.GetCodonTable(4)))
+			return codon.ParseCodonJSON(b)
+		}, func(v any) string { return tv(v.(codon.Table)) }},
+		{"Optimize(MKF*,copy of 1, first answer)", func() any {
+			var out string
+			once(func(c *mc.Ctx) {
+				vrand.Enabled = true
+				d, err := codon.Optimize("MKF*", deepCopyTable(codon.GetCodonTable(1)))
+				vrand.Enabled = false
+				out = fmt.Sprint(d, err)
+			})
+			return out
+		}, showSprint},
+	}
 }
